@@ -199,7 +199,45 @@ def run_threshold(case):
     return res
 
 
-KINDS = {"pipe": run_pipe, "pipe1": run_pipe1, "threshold": run_threshold}
+def run_session12(case):
+    """Same sampler object through save / load / iterate sequences: posterior() weights, evidence and trimming must refer to the CURRENT history."""
+    from mc import session
+    return session.run_case(case, lambda: [], key_pred=lambda k: k.startswith("session:posterior") or k.startswith("session:evidence") or k.startswith("session:trim"))
+
+
+def run_resume_larger(case):
+    """run(n_total=N1, save_every=1), then a fresh sampler resumes a checkpoint asking for 3*N1: the post-conditions are those of the request."""
+    from mc.refmodels.fs import MemFS
+
+    res = Res()
+    cfg = dict(case["cfg"])
+    fs = MemFS()
+    a = Probe(dict(cfg, save_every=1, output_dir="/memfs/r", output_label="a"), base=case["base"], fs=fs)
+    a.run()
+    res.evals += 1
+    if a.exc is not None:
+        res.bump("aborted_runs")
+        return res
+    cks = sorted((k for k in fs.files if k.endswith(".state")), key=lambda s_: (s_.endswith("_final.state"), len(s_), s_))
+    for path in [cks[0], cks[len(cks) // 2], cks[-1]]:
+        big = dict(cfg, n_total=3 * cfg["n_total"])
+        q = Probe(big, base=case["base"] + 1, fs=fs, max_iters=400)
+        q.run(resume_state_path=path)
+        res.evals += 1
+        res.states += 1
+        res.trans += q.events
+        cc = dict(case, path=path)
+        if q.exc is not None:
+            res.violate(f"resume:raises:{type(q.exc).__name__}", f"run(n_total={big['n_total']}, resume_state_path={path}) raised {q.exc!r}", cc)
+            continue
+        for key, msg in terminal_errors(q):
+            res.violate("resume-larger-n_total:" + key, msg + f" [fresh sampler resumed from {path} (written by run(n_total={cfg['n_total']})) with n_total={big['n_total']}; cfg={cfg}]", cc)
+        res.outcome(("resume-larger", path, tuple(sorted((k, repr(v)) for k, v in cfg.items()))), nontrivial=True)
+    res.traces += 1
+    return res
+
+
+KINDS = {"session": run_session12, "resume_larger": run_resume_larger, "pipe": run_pipe, "pipe1": run_pipe1, "threshold": run_threshold}
 
 FACTORS = [
     ("sample", ["tpcn", "rwm"]),
@@ -235,6 +273,10 @@ def plan(ctx):
     thr = [{"kind": "threshold", "cfg": dict(sample=k, resample=r, clustering=cl, n_particles=npart, eval="scalar"), "base": ctx.seed, "scout_total": 12 * npart, "max_targets": 12 if th else 6}
            for k in ("tpcn", "rwm") for r in ("mult", "syst") for cl in (False, True) for npart in ((16, 32) if th else (16,))]
     ctx.explore("termination-threshold", thr)
+    scfg = dict(n_particles=8, d=1, ess_ratio=1.0, n_total=10 ** 6, eval="blobs", clustering=False)
+    ses = [{"kind": "session", "cfg": dict(scfg, resample=rs), "base": ctx.seed, "depth": 9, "patterns": [sh, 4]} for rs in ("mult", "syst") for sh in range(4)]
+    ses += [{"kind": "resume_larger", "cfg": dict(sample=k, clustering=cl, n_particles=16, n_total=48), "base": ctx.seed} for k in ("tpcn", "rwm") for cl in (False, True)]
+    ctx.explore("sessions-and-resume", ses)
     agg = ctx.explore("terminal-states", cases)
     if agg.extra.get("run_cap_hit"):
         ctx.cap(f"per-configuration run cap hit in {agg.extra['run_cap_hit']} configurations (0-deviation run and the earliest 1-deviation runs complete)")
